@@ -1079,6 +1079,53 @@ func (r *runner) runMethod(m *RMember) {
 				r.rep.Outcomes["ok error"]++
 			})
 		}
+		// the same error through the other generated entry points (Send + receive, with and without More; Upgrade +
+		// receive): the typed error is what the receive function returns, whatever stub sent the call
+		if len(evs) > 0 {
+			ev := evs[0].(Rec)
+			for _, via := range []string{"send", "send-more", "upgrade"} {
+				via := via
+				where := "mode=error via=" + via
+				r.guard(where, func() {
+					_, conn := r.newLoop(r.pkg.NewFull(r.handler))
+					r.cur = &script{method: m.Name, mode: "error", errName: e.Name, errVal: ev}
+					var res []reflect.Value
+					switch via {
+					case "upgrade":
+						fn := mobj.MethodByName("Upgrade")
+						res = fn.Call(append([]reflect.Value{reflect.ValueOf(ctx), reflect.ValueOf(conn)}, r.buildArgs(fn, 2, m.In, ins[0].(Rec))...))
+					default:
+						fl := uint64(0)
+						if via == "send-more" {
+							fl = varlink.More
+						}
+						fn := mobj.MethodByName("Send")
+						res = fn.Call(append([]reflect.Value{reflect.ValueOf(ctx), reflect.ValueOf(conn), reflect.ValueOf(fl)}, r.buildArgs(fn, 3, m.In, ins[0].(Rec))...))
+					}
+					r.rep.Executions++
+					r.rep.Steps += 3
+					if err, _ := res[1].Interface().(error); err != nil {
+						r.fail("client-error", where, "sending the call returned error %v", err)
+						return
+					}
+					rr := res[0].Call([]reflect.Value{reflect.ValueOf(ctx)})
+					err, _ := rr[len(rr)-1].Interface().(error)
+					if err == nil {
+						r.fail("client-error", where, "the implementation replied error %s but receive returned no error", e.Name)
+						return
+					}
+					v := reflect.ValueOf(err)
+					if v.Kind() != reflect.Ptr || v.Elem().Type().Name() != e.Name {
+						r.fail("client-error-type", where, "error %s arrived as %T (%v)", e.Name, err, err)
+						return
+					}
+					if got := r.d.fromGo(v.Elem(), et); !avEqual(got, ev) {
+						r.fail("client-error-values", where+" err=("+sig(r.d, et)+")", "error %s arrived with %s, sent %s", e.Name, show(got), show(ev))
+					}
+					r.rep.Outcomes["ok error "+via]++
+				})
+			}
+		}
 	}
 	// not overridden: MethodNotImplemented
 	r.guard("mode=not-implemented", func() {
